@@ -3,5 +3,6 @@ CONSTANTS
   Procs = {"p1", "p2", "p3"}
   MaxCrashes = 1
   Protocol = "atomic"
+  SignalDeath = "failure"
 INVARIANT Emit
 CHECK_DEADLOCK FALSE
